@@ -62,6 +62,7 @@ pub const OPS: &[&str] = &[
 	"end-block",
 	"metadata-deep",
 	"metadata-garbage",
+	"metadata-types",
 	"random-bytes",
 	"truncate",
 	"tail-garbage",
@@ -380,6 +381,28 @@ pub fn apply(op: &str, bytes: &[u8], m: &Model, rng: &mut Rng) -> (Vec<u8>, Stri
 			}
 			p.tail = t;
 			(assemble(&p, true), d)
+		}
+		"metadata-types" => {
+			// every UBJSON type marker (also ones Slippi never writes) as a value, with edge payloads
+			let markers = [b'Z', b'N', b'T', b'F', b'i', b'U', b'I', b'l', b'L', b'd', b'D', b'C', b'S', b'H', b'[', b'{', b']', b'}', b'#', b'$'];
+			let mk = *rng.pick(&markers);
+			let payload: Vec<u8> = match rng.below(6) {
+				0 => vec![0xff; 8],
+				1 => vec![0x7f, 0xf0, 0, 0, 0, 0, 0, 0],
+				2 => vec![0x7f, 0xc0, 0, 0, 0x7f, 0x80, 0, 0],
+				3 => vec![0; 8],
+				4 => vec![b'U', 0xff],
+				_ => rng.bytes(8),
+			};
+			let mut t = b"U\x08metadata{U\x03key".to_vec();
+			t.push(mk);
+			t.extend_from_slice(&payload);
+			if rng.chance(1, 2) {
+				t.extend_from_slice(b"U\x01kSU\x01v");
+			}
+			t.extend_from_slice(b"}}");
+			p.tail = t;
+			(assemble(&p, true), format!("metadata value with UBJSON marker {:?} and payload {:02x?}", mk as char, payload))
 		}
 		"random-bytes" => {
 			let n = *rng.pick(&[0usize, 1, 10, 11, 14, 15, 16, 17, 40, 400, 4000]);
